@@ -398,6 +398,17 @@ def cw5(P, C):
                         par = f.parent[par]
                 else:
                     lab = f.render(f.nodes[case]["lhs"])
+                if lab is None:
+                    # the same selection written as an if / else-if chain: the nearest enclosing `if (<selector> == LABEL)` whose
+                    # then-branch holds the call
+                    prev = i
+                    for a in f.ancestors(i):
+                        if f.k(a) == "IfStmt" and f.nodes[a].get("then") == prev:
+                            orr = f.oriented(f.nodes[a]["cond"], lambda x: f.k(x) == "DeclRefExpr" and f.nodes[x]["decl"].get("kind") == "EnumConstant")
+                            if orr and orr[1] == "==":
+                                lab = f.render(orr[0])
+                                break
+                        prev = a
                 ty = cal.get("targs", [None])[0]
                 C.ob("CW-5", name, "%s<%s>@%s" % (member, ty, lab), lab in KEY_TYPES and KEY_TYPES[lab] == ty, f.loc(i),
                      "case %s must access the value as %s, uses %s" % (lab, KEY_TYPES.get(lab), ty))
